@@ -58,6 +58,10 @@ CHECKS["C13"] = dict(level="exploration", ref="DESIGN.md §5 C13",
    technique="exhaustive enumeration of (parent type, child type) pairs from a pool of ~80 field types x 6 class-chain shapes x a shared boundary-value corpus, with a one-directional soundness oracle (accepted undeclared override => no child-accepts/parent-rejects witness); generated valid instances of all installed schemas parsed by every ancestor; Extra-policy rule enumerated",
    text="Exhaustive over the stated pool/shapes/corpus (thorough adds Hypothesis-generated depth-2 types). One-directional by design: a refused safe override is allowed; a witness outside the corpus is missed.",
    note=TB + "; class chains are built with the real metaclass and checked in the order plugin loading uses")
+CHECKS["C06"] = dict(level="exploration", ref="DESIGN.md §5 C06",
+   technique="model-based generated container histories (Hypothesis) on three drivers; after every step an independent raw-tree auditor re-derives objects/links/schema and package records and checks the bijection and bookkeeping invariants, objects vs reference model, user tree vs plain reference tree; live vs rebuilt index compared at every reopen",
+   text="Generated search with the full invariant evaluated after every successful or refused operation. The auditor reads only the unwrapped tree (layout re-derived from the property's anchors), so it is independent of the TOC classes. Bounded history length (30 quick / 60 thorough) and a pool of 11 schema accesses.",
+   note=TB + "; a libhdf5 2.0.0 H5Ocopy bug with absolute destinations is avoided by construction (receiver switched to the root) and, if still hit, the case is counted as excluded")
 NOT_YET = {}
 def main():
     props = [json.loads(l) for l in open(os.path.join(HERE, "properties.jsonl"))]
